@@ -28,6 +28,7 @@ package lib
 import (
 	"bytes"
 	"context"
+	"crypto/sha256"
 	"encoding/hex"
 	"encoding/json"
 	"errors"
@@ -1166,8 +1167,13 @@ func TestVerifGen_C01_golden(t *testing.T) {
 	seen := map[[8]byte]bool{}
 	for i := 0; len(f.Records) < n && i < 20*n; i++ {
 		c := gen.Example(i)
-		if c.Keygen { // not deterministic: turn into a fixed-secret case
-			c.Keygen, c.ClientSeed, c.ClientStream = false, nil, nil
+		if c.Keygen { // crypto/rand inside: turn into a deterministic fixed-secret case
+			h := sha256.Sum256([]byte(fmt.Sprintf("C01 golden secret %d", i)))
+			c.Keygen, c.ClientSeed, c.ClientStream, c.Secret = false, nil, nil, h[:]
+		}
+		if i%2 == 1 && len(c.Secret) == 32 { // rapid's bytes are small-biased: half the records get hash-like secrets
+			h := sha256.Sum256([]byte(fmt.Sprintf("C01 golden secret %d", i)))
+			c.Secret = h[:]
 		}
 		// make sure the legacy paths are well represented
 		if i%3 == 0 {
@@ -1195,20 +1201,32 @@ func TestVerifGen_C01_golden(t *testing.T) {
 				skip = true
 			}
 		}
-		if skip {
+		if skip || (!out.Station.OK && i%4 != 0) { // keep only a quarter of the "both fail" records
 			continue
 		}
 		f.Records = append(f.Records, c01Golden{Case: c, Station: out.Station, Client: out.Client})
 	}
 	sort.SliceStable(f.Records, func(i, j int) bool { return f.Records[i].Case.LibVer < f.Records[j].Case.LibVer })
-	b, err := json.MarshalIndent(f, "", " ")
-	if err != nil {
-		t.Fatal(err)
+	// one record per line keeps the file diff-able and small
+	var sb bytes.Buffer
+	cb, _ := json.Marshal(f.Comment)
+	fmt.Fprintf(&sb, "{\"_comment\": %s,\n\"records\": [\n", cb)
+	for i := range f.Records {
+		b, err := json.Marshal(&f.Records[i])
+		if err != nil {
+			t.Fatal(err)
+		}
+		sb.Write(b)
+		if i != len(f.Records)-1 {
+			sb.WriteByte(',')
+		}
+		sb.WriteByte('\n')
 	}
+	sb.WriteString("]}\n")
 	if err := os.MkdirAll(dst, 0o755); err != nil {
 		t.Fatal(err)
 	}
-	if err := os.WriteFile(filepath.Join(dst, "derive.json"), append(b, '\n'), 0o644); err != nil {
+	if err := os.WriteFile(filepath.Join(dst, "derive.json"), sb.Bytes(), 0o644); err != nil {
 		t.Fatal(err)
 	}
 	t.Logf("wrote %d records", len(f.Records))
